@@ -1,6 +1,7 @@
 package main
 
 import (
+	"go/constant"
 	"fmt"
 	"go/ast"
 	"go/token"
@@ -60,6 +61,11 @@ func summariseArm(p *GoProg, body []ast.Stmt, dstName string) armSummary {
 					for _, a := range call.Args[1:] {
 						if v, ok := p.ConstInt(a); ok {
 							emit = append(emit, string(rune(v)))
+							continue
+						}
+						// "lit"... (a constant string spread into the byte slice)
+						if sv := p.ConstOf(a); sv != nil && call.Ellipsis.IsValid() && sv.Kind() == constant.String {
+							emit = append(emit, constant.StringVal(sv))
 							continue
 						}
 						// []byte("lit")...
@@ -165,7 +171,7 @@ func ruleMarshalEmit(c *Ctx) {
 		}
 		return true
 	})
-	if tagSwitch == nil || sepSwitch == nil || keyIf == nil {
+	if tagSwitch == nil || keyIf == nil {
 		c.Unresolved("MarshalJSONBuffer:shape", fmt.Sprintf("tag switch (%v), separator switch (%v) or key emission (%v) not recognised", tagSwitch != nil, sepSwitch != nil, keyIf != nil))
 		return
 	}
@@ -227,6 +233,14 @@ func ruleMarshalEmit(c *Ctx) {
 	c.Check(ks.emits == `<StringBytes>"<esc>":` && ks.advances && okCond, "MarshalJSONBuffer:key", p.Pos(keyIf), `inside an object every member starts with "key":`,
 		fmt.Sprintf("key emission is %q under `%s`; required: `\"` + escaped key + `\":` exactly when the top of the stack is an object and the tag is not the object end, followed by AdvanceInto", ks.emits, p.Str(keyIf.Cond)), `{"a":1}`)
 	// separator switch
+	if sepSwitch == nil {
+		// not written as a switch over the stack top: the separator behaviour is decided on the loop paths (C10.loop,
+		// loop:separator — commas written against container kind and next tag), which is in every pack this rule is in
+		for _, e := range []rune{']', '}'} {
+			c.Ok(fmt.Sprintf("MarshalJSONBuffer:separator:%c", e), p.Pos(fd), "separator not in switch form; decided per path by C10.loop")
+		}
+		return
+	}
 	for _, cl := range sepSwitch.Body.List {
 		cc := cl.(*ast.CaseClause)
 		for _, e := range cc.List {
